@@ -85,10 +85,16 @@ fn cast_binary_op_q(
         // MOD is covered later in logical operators because it's similar logic
         Operator::Minus | Operator::Multiply => bigger_numeric_type(left, right),
         // 1c. divide -> the result is never a whole number type
-        Operator::Divide => bigger_numeric_type(left, right).map(|q| match q {
-            TypeQualifier::PercentInteger => TypeQualifier::BangSingle,
-            TypeQualifier::AmpersandLong => TypeQualifier::HashDouble,
-            _ => q,
+        //     (a LONG or DOUBLE operand makes it a DOUBLE, like at run time)
+        Operator::Divide => bigger_numeric_type(left, right).map(|q| {
+            let is_double = |t: TypeQualifier| {
+                matches!(t, TypeQualifier::AmpersandLong | TypeQualifier::HashDouble)
+            };
+            if is_double(q) || is_double(left) || is_double(right) {
+                TypeQualifier::HashDouble
+            } else {
+                TypeQualifier::BangSingle
+            }
         }),
         // 2. relational operators
         //    if we an cast self to right, the result is -1 or 0, therefore integer
